@@ -231,8 +231,14 @@ Fixpoint coalesce (acc : option Z) (ks : list Z) : option Z :=
 Definition kinds_of (r_blind : bool) (sg : seg) (x : ent) : list Z :=
   map snd (filter (fun p => ent_eqb (fst p) x) (if r_blind then sg_kinds_b sg else sg_kinds sg)).
 
-Definition C11_commit (r_blind : bool) (g : cfg) (sg : seg) (sn : snap) : bool :=
+Definition C11_commit (r_blind r_switch : bool) (g : cfg) (sg : seg) (sn : snap) : bool :=
   let allowed := if r_blind then sg_allowed sg ++ sg_blind sg else sg_allowed sg in
+  (* the row of this transaction holds the entity's state as of its last flushed change *)
+  forallb (fun l =>
+     let cc := cls_of g (l_cls l) in
+     negb (k_versioned cc) || (r_switch && mem_ent (sg_switched sg) (l_cls l, l_key l)) ||
+     forallb (fun r => negb (pk_eqb (vkey r) (k_tab cc :: l_key l)) ||
+                       list_eqb val_eqb (vdat r) (dat_of cc (l_vals l))) (new_rows sg sn)) (sn_live sn) &&
   (* exactly one row per entity that had a flushed change, none otherwise *)
   forallb (fun x => (length (filter (fun r => pk_eqb (vkey r) (k_tab (cls_of g (fst x)) :: snd x))
                                     (new_rows sg sn)) =? 1)%nat) allowed &&
@@ -249,7 +255,9 @@ Definition C11_commit (r_blind : bool) (g : cfg) (sg : seg) (sn : snap) : bool :
       end)) (new_rows sg sn).
 
 Definition C11_prop (c : core_case) : bool :=
-  walk_case (C11_commit true) no_rb c && C03_prop c.
+  walk_case (C11_commit true false) no_rb c && C03_prop c.
+Definition C11_prop_switch (c : core_case) : bool :=
+  walk_case (C11_commit true true) no_rb c && C03_prop c.
 
 (* ------------------------------------------------------------------ C15 (b) *)
 Definition pred_row (vt : vtable) (r : vrow) : option vrow :=
